@@ -98,6 +98,15 @@ def driver_case(c):
 
 def carrier_variants(struct):
     """all Python/numpy objects that carry the same numeric scalar exactly"""
+    if struct.get("as") == "ndarray" and struct.get("kind") == "int":
+        arr = gen.materialize(struct, "ndarray")
+        out = []
+        for name in ("int8", "uint8", "int16", "uint16", "int32", "float32"):
+            with numpy.errstate(all="ignore"):
+                cast = arr.astype(name)
+            if numpy.array_equal(cast.astype(object), arr.astype(object)):
+                out.append((name + "-array", cast))
+        return out
     if struct.get("as") != "scalar":
         return [("as-is", gen.materialize(struct, struct.get("as", "ndarray")))]
     v = coef_from_json(struct["terms"][0][1][0])
@@ -109,12 +118,13 @@ def carrier_variants(struct):
         n = int(v)
         out.append(("int", n))
         for name in ("int8", "int16", "int32", "int64"):
-            # the carrier must be able to hold every power the evaluation forms (exponents <= 3)
-            if abs(n) ** 3 <= numpy.iinfo(name).max:
+            # any width that represents the value itself: powers and products must be formed in the promoted type
+            # (the repair of D32), never in the carrier's own narrow type
+            if abs(n) <= numpy.iinfo(name).max:
                 out.append((name, numpy.dtype(name).type(n)))
         if n >= 0:
             for name in ("uint8", "uint16", "uint32", "uint64"):
-                if n ** 3 <= numpy.iinfo(name).max:
+                if n <= numpy.iinfo(name).max and (name != "uint64" or n < 2 ** 20):
                     out.append((name, numpy.dtype(name).type(n)))
         if n in (0, 1):
             out.append(("bool", bool(n)))
@@ -123,9 +133,10 @@ def carrier_variants(struct):
     f = float(v)
     out.append(("float", f))
     out.append(("float64", numpy.float64(f)))
-    if abs(v) < 2 ** 10:
-        out.append(("float32", numpy.float32(f)))
-        if abs(v) <= 8:
+    with numpy.errstate(all="ignore"):
+        if float(numpy.float32(f)) == f:
+            out.append(("float32", numpy.float32(f)))
+        if float(numpy.float16(f)) == f and abs(f) < 60000:
             out.append(("float16", numpy.float16(f)))
     out.append(("complex", complex(f)))
     return out
@@ -161,17 +172,29 @@ def check(ctx, c, model, monitor=None):
     variants = [("base", base_args, base_kwargs)]
     slots = [("arg", i, x) for i, x in enumerate(c["args"]) if x is not None] + [("kw", i, v) for i, (_, v) in enumerate(c["kwargs"])]
     for where, i, x in slots:
-        for cname, obj in carrier_variants(x)[:14] if x.get("as") == "scalar" else []:
+        for cname, obj in carrier_variants(x)[:16] if x.get("as") == "scalar" or (x.get("as") == "ndarray" and x.get("kind") == "int") else []:
             a2, k2 = list(base_args), [list(kv) for kv in base_kwargs]
             if where == "arg":
                 a2[i] = obj
             else:
                 k2[i][1] = obj
             variants.append((f"{where}{i}:{cname}", a2, k2))
+    variants.append(("function-spelling, kwargs dict used twice", base_args, base_kwargs))
     for vname, args, kwargs in variants:
         ctx.count("calls")
         try:
-            if monitor:
+            if vname.startswith("function-spelling"):
+                d = {f"q{k}" if isinstance(k, int) else k: v for k, v in kwargs}
+                keys_before = list(d)
+                first = numpoly.call(p, tuple(args), d)
+                res = numpoly.call(p, tuple(args), d)
+                if list(d) != keys_before:
+                    ctx.fail(c, f"numpoly.call(poly, args, kwargs) changed the caller's kwargs dict: {keys_before} -> {list(d)}", tags + ["kwargs-mutated"])
+                    return
+                if result_struct(first) != result_struct(res):
+                    ctx.fail(c, "numpoly.call(poly, args, kwargs) gives different results on the first and the second call with the same dict", tags + ["kwargs-mutated", "value"])
+                    return
+            elif monitor:
                 with monitor.watch("C02:call", p, *[x for x in args if x is not None], *[v for _, v in kwargs]):
                     res = call_impl(p, args, kwargs)
             else:
